@@ -105,7 +105,13 @@ def boundary(r, t):
         v = r.choice([0, 1, 2, 3, 4, 5, 7, 8, 9, 10, 15, 16, 31, 32, 33, 63, 64, 100, 127, 128, 255, 256, 1000])
         return v if v <= t.hi else v % (t.hi + 1)
     if k < 0.6:
-        return r.choice([t.lo, t.lo + 1, t.hi, t.hi - 1, t.hi // 2, t.hi // 2 + 1])
+        c = [t.lo, t.lo + 1, t.hi, t.hi - 1, t.hi // 2, t.hi // 2 + 1]
+        if t.bits == 64:
+            # around the 32 bit immediate limits of 64 bit instructions
+            c += [0x7fffffff, 0x80000000, 0x90000000, 0xffffffff, 0x100000000]
+            if t.signed:
+                c += [-0x80000000, -0x80000001]
+        return r.choice(c)
     if k < 0.75 and t.signed:
         return -r.choice([1, 2, 3, 4, 7, 8, 9, 100, 127, 128])
     if k < 0.85:
